@@ -394,9 +394,9 @@ def shrink(case):
     for v in b["names"]:
         if v not in children and len(b["names"]) > 1:
             nb = {"names": [x for x in b["names"] if x != v], "node_order": [x for x in b["node_order"] if x != v],
-                  "edge_order": [e for e in b.get("edge_order", []) if v not in e] or None,
-                  "cpd_order": [x for x in b.get("cpd_order", b["names"]) if x != v],
-                  "nodes_first": b.get("nodes_first", True),
+                  "edge_order": [e for e in (b.get("edge_order") or []) if v not in e] or None,
+                  "cpd_order": [x for x in (b.get("cpd_order") or b["names"]) if x != v],
+                  "nodes_first": b.get("nodes_first", True), "states_kind": b.get("states_kind", "ident"),
                   "states": {x: s for x, s in b["states"].items() if x != v},
                   "parents": {x: s for x, s in b["parents"].items() if x != v},
                   "values": {x: s for x, s in b["values"].items() if x != v}, "mode": b["mode"]}
